@@ -4,17 +4,66 @@ package el
 
 // Placeholder / expression helpers (C16, C18). The regular expressions themselves are library objects (A-LIB regexp).
 
+// Interface view of a helper: the expression it searches for, and whether it is usable (ElOK of the implementation).
+//@ ghost field (Helper) Pattern *regexp.Regexp
+//@ ghost field (Helper) OK bool
+//@ bind (e *elHelper) Helper.Pattern = e.Regexp
+//@ bind (e *elHelper) Helper.OK = ElOK(e)
+
+//@ method (Helper).MatchString
+//@ property C16 C18
+//@ requires [usable] self.OK
+//@ assigns nothing
+//@ ensures [match-iff-placeholder] result == (RFirst(self.Pattern, s) != "")
+
+//@ method (Helper).ReplaceAllContent
+//@ property C16 C18
+//@ requires [usable] self.OK && f != nil
+//@ assigns allmaps(map[string]any)
+//@ ensures [no-placeholder-left] implies(result1 == nil, RFirst(self.Pattern, result0) == "")
+//@ ensures [untouched-without-placeholder] implies(RFirst(self.Pattern, s) == "", result0 == s && result1 == nil)
+//@ ensures [error-means-empty] implies(result1 != nil, result0 == "")
+
+// ElOK(e): a usable helper: the marker lengths fit into every match of the expression (so content() never slices out
+// of range) and matches are never empty.
+//@ spec func ElOK(e *elHelper) bool = e != nil && e.Regexp != nil && 0 <= e.pre && 0 <= e.suf && e.pre + e.suf <= RMatchMin(e.Regexp) && RMatchMin(e.Regexp) >= 1
+//@ spec func ElContent(e *elHelper, elr string) string = substr(elr, e.pre, len(elr) - e.suf)
+
+//@ func (*elHelper).content
+//@ property C16 C18
+//@ requires [fits] e != nil && 0 <= e.pre && 0 <= e.suf && e.pre + e.suf <= len(elr)
+//@ assigns nothing
+//@ ensures [inner-text] result == ElContent(e, elr)
+
+// The replacement callback (A-CALLBACK): it may record what it looked up; it reports failure through its error result.
+//@ func (*elHelper).ReplaceAllContent#f
+//@ assigns allmaps(map[string]any)
+
+// ReplaceAllContent: repeat "find the first placeholder, replace it by f(its content)" until none is left.
+//   [no-placeholder-left]  on success the result contains no placeholder
+//   [untouched-without-placeholder]  a text without placeholder comes back unchanged, f is not needed
+//   termination: the loop needs a variant (C16: resolution never hangs)
+//@ func (*elHelper).ReplaceAllContent
+//@ implements Helper
+//@ terminates
+//@ loop 1 decreases maxReplaceRounds - round
+//@ loop 1 invariant [rounds-bounded] 0 <= round && round <= maxReplaceRounds
+//@ loop 1 invariant [untouched] implies(RFirst(e.Regexp, s) == "", result == s)
+
 //@ func newEl
 //@ property C09 C16 C18
 //@ assigns nothing
 //@ ensures [built] result != nil && typeIs(result, *elHelper) && fresh(payload(result)) && asType(result, *elHelper).Regexp == reg && asType(result, *elHelper).pre == pre && asType(result, *elHelper).suf == suf
+//@ ensures [usable-if-it-fits] implies(reg != nil && 0 <= pre && 0 <= suf && pre + suf <= RMatchMin(reg) && RMatchMin(reg) >= 1, result.OK)
 
 //@ func NewQuote
 //@ property C09 C16
 //@ assigns nothing
 //@ ensures [built] result != nil && typeIs(result, *elHelper) && asType(result, *elHelper).Regexp != nil && asType(result, *elHelper).pre == 2 && asType(result, *elHelper).suf == 1
+//@ ensures [usable] result.OK
 
 //@ func NewExpr
 //@ property C09 C18
 //@ assigns nothing
 //@ ensures [built] result != nil && typeIs(result, *elHelper) && asType(result, *elHelper).Regexp != nil && asType(result, *elHelper).pre == 2 && asType(result, *elHelper).suf == 1
+//@ ensures [usable] result.OK
